@@ -83,4 +83,11 @@ theorem flowCoef_perm (A : AMat Int n) :
     simp only [vget_ofFn, permVec_get]
     rw [(flowNode_eq_spec (permA σ A) v).2, (flowNode_eq_spec A (σ v)).2, flowNodeSpec_perm]
 
+theorem flowFC_perm (A : AMat Int n) : flowFC (permA σ A) = flowFC A := by
+  unfold flowFC
+  rw [flowCoef_perm]
+  have : (fsum fun v => xval (vget (permVec σ (flowCoef A).1) v)) = fsum fun v => xval (vget (flowCoef A).1 v) :=
+    fsum_congr_perm σ _ _ (fun v => by simp)
+  rw [this]
+
 end Bct.Measures
